@@ -386,7 +386,8 @@ __ebd_main_loop() {
 					__ebd_write_line "phases succeeded"
 				else
 					[[ -n ${error_output} ]] || error_output="ebd::${com% *} failed"
-					__ebd_write_line "phases failed ${error_output}"
+					# the reply must be a single line; the python side reads exactly one
+					__ebd_write_line "phases failed ${error_output//$'\n'/ }"
 				fi
 				;;
 			alive)
